@@ -8,6 +8,7 @@ import math
 import numpy as np
 from hypothesis import strategies as st
 
+from vf import forms
 from vf.core import Result, lib
 
 ID = "C05"
@@ -91,6 +92,8 @@ def strategy_(draw):
         c["k_dyadic"] = draw(st.integers(-20, 20))
         c["lam"] = draw(st.floats(1e-3, 1e3))
         c["m_factor_exp"] = draw(st.integers(-10, 10))
+        c["M_form"] = draw(forms.scalar_form())
+        c["tau_form"] = draw(forms.scalar_form())
     if kind in ("bounded-fit", "fixed-tau", "guess"):
         # bounds as factors of the generating parameters (so that the optimum can be inside or outside)
         c["M_lo"] = draw(st.floats(-3.0, 2.0))
@@ -101,6 +104,8 @@ def strategy_(draw):
         c["noise"] = draw(st.sampled_from([0.0, 0.0, 0.05, 0.5]))
         c["noise_seed"] = draw(st.integers(0, 2**16))
         c["tau_fixed_factor"] = draw(st.floats(-1.0, 1.0))
+        # a supplied tau may be a Python int, a numpy scalar or a 0-d array just as well as a float
+        c["tau_form"] = draw(forms.scalar_form())
         c["guess"] = [draw(st.floats(-6.0, 14.0)), draw(st.floats(-6.0, 8.0))]
         c["guess_len"] = draw(st.sampled_from([1, 2]))
         # production records are often whole numbers held in integer arrays (days, Mscf)
@@ -166,6 +171,16 @@ def check_case(case) -> Result:
         if not np.array_equal(y, want):
             k = int(np.argmax(np.abs(y - want)))
             res.check("C05/forecast-is-M-times-rf-of-t-over-tau", float(abs(y[k] - want[k])), 1e-13 * abs(want[k]) + 1e-300, f"forecast_cum(t[{k}]={t[k]!r}, M={M!r}, tau={tau!r}) = {y[k]!r}, M*rf(t/tau) = {want[k]!r};")
+        # M and tau as Python ints / numpy scalars / 0-d arrays (whole-number values): the same law
+        mf, tf = case.get("M_form", "float"), case.get("tau_form", "float")
+        if (mf, tf) != ("float", "float") and "np.float32" not in (mf, tf):
+            Mq, tq = forms.representable(M, mf), forms.representable(tau, tf)
+            if Mq > 0 and tq > 0:
+                yq = np.asarray(lib(f"forecast_cum(M as {mf}, tau as {tf})", f.forecast_cum, t, forms.scalar(Mq, mf), forms.scalar(tq, tf)), float)
+                wq = Mq * np.asarray(rf(t / tq), float)
+                if yq.shape != wq.shape or not np.allclose(yq, wq, rtol=1e-13, atol=1e-300):
+                    res.bad("C05/forecast-is-M-times-rf-of-t-over-tau", f"forecast_cum(t, M={Mq!r} as {mf}, tau={tq!r} as {tf}) differs from M*rf(t/tau) (max diff {float(np.max(np.abs(yq - wq))) if yq.shape == wq.shape else 'shape'})")
+                res.labels["scalar_forms"] = "non-float"
         fm = 2.0 ** case["m_factor_exp"]
         y2 = np.asarray(lib("forecast_cum", f.forecast_cum, t, M * fm, tau), float)
         if not np.array_equal(y2, y * fm):
@@ -255,15 +270,26 @@ def check_case(case) -> Result:
         return res
     # fixed tau
     tau_fix = tau * 10.0 ** case["tau_fixed_factor"]
+    tform = case.get("tau_form", "float")
+    if tform not in ("float", "np.float32"):
+        q = forms.representable(tau_fix, tform)
+        if q > 0 and 0.5 < q / tau_fix < 2.0:
+            tau_fix = q
+        else:
+            tform = "float"
+    else:
+        tform = "float"
+    res.labels["supplied_tau_form"] = tform
+    tau_given = forms.scalar(tau_fix, tform)
     try:
-        f.fit(t, y, tau_fix)
+        f.fit(t, y, tau_given)
     except RuntimeError:
         res.labels["fit_raised"] = True
         return res
     except Exception as e:  # noqa: BLE001
         res.bad("C05/fit-accepts-out-of-bounds-default-guess", f"fixed-tau fit raised {type(e).__name__}: {e} (bounds M=({mlo!r},{mhi!r}))")
         return res
-    if f.tau_ is not tau_fix and f.tau_ != tau_fix:
+    if f.tau_ is not tau_given and float(f.tau_) != tau_fix:
         res.bad("C05/fixed-tau-returned-unchanged", f"tau_={f.tau_!r} after a fit with tau={tau_fix!r}")
     if not (mlo <= f.M_ <= mhi):
         res.bad("C05/fitted-parameters-inside-bounds", f"fixed-tau fit: M_={f.M_!r} outside ({mlo!r},{mhi!r})")
